@@ -349,6 +349,14 @@ def run_property(prop_id, tier, budget_s=None, workers=None, only=None):
     order = sorted(range(len(sps)), key=lambda i: -cost(sps[i]))
     tasks = [(name, sps[i], deadline) for i in order]
     results = []
+    xh = None
+    if getattr(mod, "XHAIR_PREFIX", None):
+        import threading
+        from .xhair import run as xrun
+
+        xh = {}
+        th = threading.Thread(target=lambda: xh.update(xrun.run(mod.XHAIR_PREFIX)), daemon=True)
+        th.start()
     if workers == 1 or len(tasks) <= 1:
         for t in tasks:
             results.append(run_subspace(t))
@@ -357,7 +365,9 @@ def run_property(prop_id, tier, budget_s=None, workers=None, only=None):
         with ctx.Pool(min(workers, len(tasks))) as pool:
             for r in pool.imap_unordered(run_subspace, tasks, chunksize=1):
                 results.append(r)
-    return finish(mod, prop_id, tier, seed, results, time.time() - t0)
+    if xh is not None:
+        th.join(timeout=180)
+    return finish(mod, prop_id, tier, seed, results, time.time() - t0, xhair=xh)
 
 
 def _replay_path(prop_id, key):
@@ -367,7 +377,7 @@ def _replay_path(prop_id, key):
     return os.path.join(d, f"{prop_id}-{h}.json")
 
 
-def finish(mod, prop_id, tier, seed, results, wall):
+def finish(mod, prop_id, tier, seed, results, wall, xhair=None):
     agg = {}
     faults = []
     incomplete = 0
@@ -399,6 +409,17 @@ def finish(mod, prop_id, tier, seed, results, wall):
                 cur["total"] += v.get("count", 1)
                 if v["confirmed"] and not cur["confirmed"]:
                     cur.update({k: v[k] for k in ("confirmed", "values", "choices", "subspace", "detail")})
+    second = {}
+    if xhair is not None:
+        from .xhair import run as xrun
+
+        for name, (verdict, msg) in sorted(xhair.items()):
+            second[name] = verdict
+            if verdict == "counterexample":
+                real = xrun.replay(name, msg)
+                key = f"{prop_id}/crosshair/{name}"
+                violations[key] = dict(key=key, detail=msg, values={"crosshair_kernel": name, "message": msg}, choices=[],
+                                       confirmed=bool(real), subspace={"engine": "crosshair", "kernel": name}, total=1)
     known = [k for k in load_known() if k.get("property") == prop_id and k.get("status") == "known"]
     known_keys = {k["key"]: k for k in known}
     exit_code = 0
@@ -460,6 +481,8 @@ def finish(mod, prop_id, tier, seed, results, wall):
             functions_encoded=sorted(funcs),
             bounds=getattr(mod, "bounds", lambda t: "")(tier),
             stubs=getattr(mod, "STUBS", []),
+            second_engine=dict(name="crosshair-tool (symbolic execution of the same library code, per path, z3)", kernels=second)
+            if second else None,
             known_findings_matched=[k for k in violations if k in known_keys and violations[k]["confirmed"]],
             explanation=("states/transitions count the symbolic dispatcher states and dispatches executed over all explored paths (a state "
                          "shared by several paths is counted once per path); paths = feasible symbolic paths, each ended with all its "
@@ -501,6 +524,15 @@ def replay(prop_id, path):
     """Re-run a recorded counterexample concretely against /repo as it is now."""
     with open(path) as f:
         rp = json.load(f)
+    if rp.get("subspace", {}).get("engine") == "crosshair":
+        from .xhair import run as xrun
+
+        real = xrun.replay(rp["values"]["crosshair_kernel"], rp["values"]["message"])
+        print(json.dumps(dict(key=rp["key"], reproduced=bool(real)), indent=1))
+        if real:
+            print(f"VIOLATION property={prop_id} replay={path}")
+            return 1
+        return 0
     mod = importlib.import_module(f"vf.props.{prop_id.lower()}")
     sp = rp["subspace"]
     ce = E.Engine("conc", values=rp["values"], choices=rp["choices"])
